@@ -118,6 +118,16 @@ def _mutate(rng, op, mapping, fam="II"):
     elif name in ("supdate", "ior", "iand", "isub", "ixor", "isdisjoint"):
         if op[2] in ("self",):
             return op
+        if name in ("supdate", "ior", "isdisjoint") and \
+                rng.random() < 0.3:
+            # not an iterable at all / one that refuses to be iterated
+            # (not for -= &= ^=: there C answers NotImplemented and Python's
+            # operator protocol falls back to the binary operator, which
+            # takes a single key or None as operand -- `s -= 5` is
+            # `s = s - 5` in C and a TypeError in Python; by design)
+            op[2] = rng.choice(["noniter-int", "noniter-none",
+                                "iter-raises"])
+            return op
         if not op[1]:
             op[1] = [0]
         op[1][rng.randrange(len(op[1]))] = kspec
